@@ -43,6 +43,10 @@
 (*               a chain of references is as deep a Go recursion as it is    *)
 (*               long - as coded no depth cap applies     G_SEEN, G_WALKDEPTH*)
 (*                                                                          *)
+(*   "navnode"   page/navnode Decode: the /Next list of navigation nodes of  *)
+(*               a page (/PresSteps), a loop whose CycleCheck path takes up  *)
+(*               every node it has passed                G_SEEN, G_NAVACC    *)
+(*                                                                          *)
 (* A wiring is (kind[n], a[n], b[n]) for every node n in 1..N: what the     *)
 (* parser finds at the object (its type) and two slots whose meaning        *)
 (* depends on the walker.  Slot values: 0 = absent, 1..N = that object,     *)
@@ -71,7 +75,8 @@ CONSTANTS N,          \* objects
           G_GLOBDEPTH, \* the JBIG2Globals recursion is under the depth cap (before de83502 it was not)
           G_WALKDEPTH, \* walker.walkObject is under a depth cap (as coded: it is not)
           G_FILTERTOP, \* GetFilters resolves /Filter and /DecodeParms with canObjStm = false
-          FSTREAM      \* the object layer also has streams with an indirect /Filter, and name objects
+          FSTREAM,     \* the object layer also has streams with an indirect /Filter, and name objects
+          G_NAVACC     \* the path of the navigation node list accumulates (not just: head + current node)
 
 Nodes    == 1..N
 Absent   == 0
@@ -108,6 +113,7 @@ Kinds ==
     [] Walker = "fields"   -> {"field", "widget", "other"}
     [] Walker = "parents"  -> {"field", "other"}
     [] Walker = "objwalk"  -> {"dict", "leaf"}
+    [] Walker = "navnode"  -> {"node", "other"}
 
 \* slot a
 DomA(k) ==
@@ -125,6 +131,7 @@ DomA(k) ==
     [] Walker = "fields"   -> IF k = "field" THEN 0..Dangling ELSE {Absent}  \* /Kids[0]
     [] Walker = "parents"  -> IF k = "field" THEN 0..Dangling ELSE {Absent}  \* /Parent
     [] Walker = "objwalk"  -> IF k = "dict" THEN 0..Dangling ELSE {Absent}   \* first entry
+    [] Walker = "navnode"  -> IF k = "node" THEN 0..Dangling ELSE {Absent}   \* /Next
 \* slot b
 DomB(k) ==
   CASE Walker = "resolve"  -> {Absent}
@@ -139,6 +146,7 @@ DomB(k) ==
     [] Walker = "fields"   -> IF k = "field" THEN 0..Dangling ELSE {Absent}  \* /Kids[1]
     [] Walker = "parents"  -> {Absent}
     [] Walker = "objwalk"  -> IF k = "dict" THEN 0..Dangling ELSE {Absent}   \* second entry
+    [] Walker = "navnode"  -> {Absent}
 
 Edges == Cardinality({n \in Nodes : a[n] # Absent}) + Cardinality({n \in Nodes : b[n] # Absent})
 
@@ -157,6 +165,7 @@ Bound ==
     [] Walker = "fields"   -> 1 + 2 * Edges
     [] Walker = "parents"  -> N + 1
     [] Walker = "objwalk"  -> 1 + Edges
+    [] Walker = "navnode"  -> N + 1
 WorkCap == Bound + 1
 Tick(w) == IF w < WorkCap THEN w + 1 ELSE w
 Sat(d)  == IF d <= MaxDepth THEN d + 1 ELSE d      \* depth counter saturates once past the cap
@@ -661,6 +670,29 @@ ObjDone == /\ phase = "walk" /\ Walker = "objwalk" /\ Len(stack) = 0
            /\ UNCHANGED <<wiring, wired, start, mode, cur, depth, stack, seen, ret, work, out>>
 ObjNext == ObjBegin \/ ObjStep \/ ObjDone
 
+
+(* ------------------------------------------------------------------------ *)
+(* "navnode": navnode.Decode follows /Next from the head (node 1, already   *)
+(* on the path: pdf.Decode put it there) and extends the path by every node *)
+(* it passes; c.Dict of a node on the path is ErrCycle                      *)
+(* ------------------------------------------------------------------------ *)
+NavBegin == /\ phase = "wire" /\ wired = N /\ Walker = "navnode"
+            /\ start' = 1 /\ seen' = {1} /\ work' = Tick(work) /\ phase' = "walk"
+            /\ IF kind[1] = "other" THEN cur' = Root /\ out' = out                \* the head is no dictionary
+               ELSE cur' = a[1] /\ out' = <<1>>
+            /\ UNCHANGED <<wiring, wired, mode, depth, stack, ret>>
+NavStep == /\ phase = "walk" /\ Walker = "navnode"
+           /\ IF cur = Root THEN Finish(<<"err">>) /\ UNCHANGED <<cur, seen, work>>
+              ELSE IF cur = Absent THEN phase' = "done" /\ UNCHANGED <<cur, seen, work, out>>
+              ELSE IF G_SEEN /\ cur \in seen THEN Finish(<<"err">>) /\ UNCHANGED <<cur, seen, work>>       \* ErrCycle
+              ELSE /\ work' = Tick(work)
+                   /\ IF cur = Dangling THEN phase' = "done" /\ UNCHANGED <<cur, seen, out>>              \* nil dictionary ends the list
+                      ELSE IF kind[cur] = "other" THEN Finish(<<"err">>) /\ UNCHANGED <<cur, seen>>
+                      ELSE /\ seen' = IF G_NAVACC THEN seen \cup {cur} ELSE {1, cur}
+                           /\ out' = Emit(out, cur) /\ cur' = a[cur] /\ UNCHANGED phase
+           /\ UNCHANGED <<wiring, wired, start, mode, depth, stack, ret>>
+NavNext == NavBegin \/ NavStep
+
 (* ------------------------------------------------------------------------ *)
 Walk == CASE Walker = "resolve"  -> ResolveNext
           [] Walker = "length"   -> LengthNext
@@ -673,6 +705,7 @@ Walk == CASE Walker = "resolve"  -> ResolveNext
           [] Walker = "fields"   -> FieldsNext
           [] Walker = "parents"  -> ParentsNext
           [] Walker = "objwalk"  -> ObjNext
+          [] Walker = "navnode"  -> NavNext
 Next == Wire \/ Walk
 Spec == Init /\ [][Next]_vars /\ WF_vars(Next)
 
